@@ -191,6 +191,17 @@ def r4(ctx):
     if heap_init is None:
         raise AnchorMissing('initial heap construction by collect() not found')
     chain = sym(body, heap_init.args[0])
+    # nothing between the candidate construction and the heap may drop or reorder candidates
+    from analysis.sym import peel as _peel
+    cur = _peel(chain)
+    while isinstance(cur, tuple) and cur and cur[0] == 'call' and cur[2] and not cur[1].endswith('Iterator::filter_map'):
+        nm = cur[1].rsplit('::', 1)[-1]
+        if nm in ('dedup', 'dedup_by', 'dedup_by_key', 'filter', 'take', 'skip', 'step_by', 'take_while', 'skip_while', 'unique', 'unique_by', 'rev', 'sorted', 'sorted_by_key'):
+            ctx.fail(body, 'initial-candidates-dropped|' + nm, 'the initial candidates pass through `%s` before they reach the heap: a candidate that is dropped here is never '
+                     're-created (re-pushes only involve a freshly merged token), so a mergeable adjacent pair can stay unmerged' % nm, heap_init.span)
+            return
+        cur = _peel(cur[2][0])
+    chain = cur if (isinstance(cur, tuple) and cur and cur[0] == 'call' and cur[1].endswith('Iterator::filter_map')) else chain
     if not (chain[0] == 'call' and chain[1].endswith('Iterator::filter_map')):
         raise AnchorMissing('initial heap is not built by filter_map(..).collect()')
     src = chain[2][0]
